@@ -61,6 +61,9 @@ class Oracle:
             return "malformed result line"
         res, dump = line.split(" | ", 1)
         r = res.split()
+        if r and r[0].startswith("allocs="):      # allocation attempts of the call (overlay C11/C15)
+            r = r[1:]
+            res = " ".join(r)
         kind = w[0]
         if not r or r[0] == "bad-op":
             return "harness rejected the operation"
@@ -71,16 +74,17 @@ class Oracle:
         d = dump.split()
         if dump.endswith("BACKLINKS-BROKEN"):
             return "after `%s` the prev links / last pointer do not mirror the next links" % op[:60]
-        opts, num, ents = d[0], int(d[1]), parse_entries(d[2])
+        opts, num, ents = d[0], int(d[1]), parse_entries(d[3])
+        self.live = int(d[2][5:])       # `live=<n>`: blocks the library holds for the table
         got = [(n, v) for n, v, _ in ents]
         bad = None
         resync = False
         if kind == "new":
             self.l = []
             self.set_opts("".join(w[1:5]))
-        elif kind in ("put", "putstr", "putint"):
+        elif kind in ("put", "putstr", "putstrf", "putint"):
             k = unhex(w[1])
-            v = unhex(w[3]) if kind == "put" else unhex(w[3]) + b"\0" if kind == "putstr" else str(int(w[3])).encode() + b"\0"
+            v = unhex(w[3]) if kind == "put" else unhex(w[3]) + b"\0" if kind.startswith("putstr") else str(int(w[3])).encode() + b"\0"
             if len(v) == 0:
                 if res != "false EINVAL":
                     bad = "put of an empty value reported %s" % res
@@ -222,6 +226,7 @@ class TheCheck(Check):
     prop = "C08"
     module = "listtbl"
     harness = "listtbl"
+    lib = "libqw.a"        # allocator traffic of the library is counted (harness/allocwrap.h)
     rule = ("operation lines executed by the C functions (ASan+UBSan) and the Lean model with the node order (and "
             "back links) dumped through the public structs after every operation; distinct_nontrivial = distinct "
             "(operation kind, result kind, option vector, table size) classes")
@@ -272,7 +277,8 @@ class TheCheck(Check):
     def nontrivial_key(self, op, line):
         res, _, dump = line.partition(" | ")
         d = dump.split()
-        return (op.split()[0], res.split()[0] if res else "", d[0] if d else "", min(int(d[1]), 9) if len(d) > 1 else 0)
+        r = [x for x in res.split() if not x.startswith("allocs=")]
+        return (op.split()[0], r[0] if r else "", d[0] if d else "", min(int(d[1]), 9) if len(d) > 1 else 0)
 
     def shrink(self, st, idx, pred):
         j = idx
